@@ -107,7 +107,14 @@ impl<'a> Gen<'a> {
             VK::Boolean => Ov::Bool(self.rng.chance(1, 2)),
             VK::Integer => Ov::Int(*self.rng.pick(&[0u64, 1, 2, 7, 42, 255, 256, 65535, 1 << 40, u64::MAX])),
             VK::NegativeInteger => Ov::Neg(*self.rng.pick(&[-1i64, -2, -47, -128, -129, -32769, i64::MIN])),
-            VK::Float => Ov::float(*self.rng.pick(&[0.5f64, -0.0, 1.0, 3.25, -2.5e10, 1e300, 5e-324, 16777217.0])),
+            VK::Float => {
+                if self.opts.allow_nonfinite && self.rng.chance(1, 5) {
+                    self.tag("non-finite-float");
+                    Ov::float(*self.rng.pick(&[f64::NAN, f64::INFINITY, f64::NEG_INFINITY]))
+                } else {
+                    Ov::float(*self.rng.pick(&[0.5f64, -0.0, 1.0, 3.25, -2.5e10, 1e300, 5e-324, 16777217.0]))
+                }
+            }
             VK::String => Ov::Str(self.word()),
             VK::Sequence => {
                 let n = if depth >= self.opts.max_depth { 0 } else { self.rng.below(3) };
@@ -295,9 +302,21 @@ impl<'a> Gen<'a> {
             Ty::Phantom => self.any(depth + 1),
             Ty::Json => {
                 let v = self.any(depth.max(self.opts.max_depth.saturating_sub(3)));
-                if self.opts.allow_nonfinite && self.rng.chance(1, 6) {
+                if self.opts.allow_nonfinite && self.rng.chance(1, 3) {
+                    // several non-finite floats among the members of ONE object / array, with finite members between
                     self.tag("non-finite-float");
-                    return Ov::Seq(vec![v, Ov::float(f64::NAN), Ov::Map(vec![("k".into(), Ov::float(f64::INFINITY))])]);
+                    let w = self.any(depth.max(self.opts.max_depth.saturating_sub(2)));
+                    let obj = Ov::Map(vec![
+                        ("a".into(), Ov::float(f64::NAN)),
+                        ("b".into(), w.clone()),
+                        ("c".into(), Ov::float(f64::NEG_INFINITY)),
+                        ("d".into(), Ov::Seq(vec![Ov::float(0.5), Ov::float(f64::INFINITY), w])),
+                    ]);
+                    return match self.rng.below(3) {
+                        0 => obj,
+                        1 => Ov::Seq(vec![v, Ov::float(f64::NAN), obj, Ov::float(f64::INFINITY)]),
+                        _ => Ov::Map(vec![("k".into(), v), ("nested".into(), obj), ("z".into(), Ov::float(f64::NAN))]),
+                    };
                 }
                 v
             }
